@@ -129,6 +129,8 @@ class C14(Check):
         for kind, _p in tg:
             for dmg, arg in damage_list(kind, sizes[kind], tier):
                 yield {"target": kind, "damage": dmg, "arg": arg}
+        # the pointer AND every metadata file gone under a handle that is already open
+        yield {"target": "metadata", "damage": "delete_all_metadata", "arg": None}
 
     def run_case(self, case: Any, res: CaseResult, tier: str) -> None:
         rng = rng_for(0, "c14", case["target"], case["damage"], case["arg"])
@@ -150,7 +152,12 @@ class C14(Check):
                 raw = open(path, "rb").read()
                 dmg = case["damage"]
                 hook = None
-                if dmg == "delete":
+                if dmg == "delete_all_metadata":
+                    import glob
+                    os.remove(os.path.join(root, reader.HINT))
+                    for f in glob.glob(os.path.join(root, "metadata", "v*.metadata.json")):
+                        os.remove(f)
+                elif dmg == "delete":
                     os.remove(path)
                 elif dmg == "truncate":
                     open(path, "wb").write(raw[: min(case["arg"], len(raw) - 1)])
